@@ -248,6 +248,8 @@ func c11Run(c c11Case) (msg string) {
 			m = c11Guard("VUnlink", func() {
 				err = e.VUnlink(c11Index, c11Node(op.Src), c11Node(op.Dst), op.Rel, op.Inv, op.Hard)
 			})
+		case "gvacuum":
+			m = c11Guard("VacuumGraph", func() { e.DB.VacuumGraph(time.Now().UnixNano()) })
 		default:
 			return fmt.Sprintf("HARNESS: unknown op kind %q", op.Kind)
 		}
@@ -330,7 +332,9 @@ func c11Run(c c11Case) (msg string) {
 				return "HARNESS: RewriteAOF: " + terr.Error()
 			}
 		}
-		if strings.HasPrefix(c.Tail, "snapshot") {
+		// a graph vacuum is not journaled: only a snapshot or a compaction makes it durable, so a plain restart
+		// after one is taken through a snapshot (same rule as in the C10 check)
+		if strings.HasPrefix(c.Tail, "snapshot") || (c.Tail == "restart" && mod.sawVacuum) {
 			if m := c11Guard("SaveSnapshot", func() { terr = e.SaveSnapshot() }); m != "" {
 				return m
 			}
